@@ -1,6 +1,6 @@
 """C01 - tunnelled TCP streams deliver exactly the bytes written, in order, per stream (spec/Mux.tla)."""
 import lib
-from props import muxcommon as mx
+from props import muxcommon as mx, muxprop
 
 LEVEL = "model_checking"
 ASSUME = [
@@ -14,49 +14,27 @@ KEYS = {"bytes-wrong", "bytes-missing", "session-died", "write-refused", "open-r
         "eof-early", "call-blocked", "accept-failed"}
 
 
+RULE = ("behaviours of MuxGen (API calls x delivery orders over gated connections; exhaustive BFS for 2 conns/1 stream/2 units "
+        "per direction with writes split over 2 frames, TLC -simulate for 3 conns/2 streams, for lazy readers and for a connection added "
+        "while frames are being sent) replayed on a real Session pair in a synctest bubble; each with an encryption method / unit-size "
+        "concretisation; non-trivial = a record is delivered while an earlier one of the same direction is still in flight on another connection")
+
+
 def run(ctx):
     q = ctx.quick()
-    results = []
-    # 1. exhaustive model check of the data path (ideal design: no deviation)
-    mx.model_check(ctx, "data_2c2s", mx.cfg(nc=2, ns=2, units=2, maxwrite=2, extrainv="StaysUp"))
+    C = mx.cfg
+    mcs = [("data_2c2s", C(nc=2, ns=2, units=2, maxwrite=2, extrainv="StaysUp"), 900),
+           ("addconn", C(nc=2, ns=1, units=2, maxwrite=1, late="2", feat='"swrite","gates"', extrainv="StaysUp"), 900)]
     if not q:
-        mx.model_check(ctx, "data_3c2s", mx.cfg(nc=3, ns=2, units=2, maxwrite=2, extrainv="StaysUp"), timeout=1800)
-        mx.model_check(ctx, "data_2c2s_lazy", mx.cfg(nc=2, ns=2, units=2, maxwrite=2, feat='"swrite","lazy"', extrainv="StaysUp"), timeout=1800)
-    # 2. behaviours: all delivery orders for small constants, simulation for larger ones
-    beh = mx.generate(ctx, "2c1s", mx.cfg(nc=2, ns=1, units=2, maxwrite=2), depth=30)
-    results.append(mx.replay(ctx, "2c1s", beh, nc=2, allconc=not q))
-    nb = len(beh)
-    sims = [("3c2s", mx.cfg(nc=3, ns=2, units=2, maxwrite=2), 3, 300 if q else 4000),
-            ("2c2s_lazy", mx.cfg(nc=2, ns=2, units=3, maxwrite=2, feat='"swrite","lazy"'), 2, 200 if q else 3000)]
-    for name, c, nc, num in sims:
-        b = mx.generate(ctx, name, c, depth=60, simulate=num)
-        nb += len(b)
-        results.append(mx.replay(ctx, name, b, nc=nc))
-    for r in results:
-        for v in r.get("violations", []):
-            if v["key"] in KEYS:
-                ctx.violations.append(v)
-            else:
-                ctx.notes.append("other-property observation %s: %s" % (v["key"], v["what"]))
-        if r.get("_died"):
-            raise lib.Inconclusive("replay driver died: " + r.get("_stdout_tail", ""))
-    tot = mx.merge(results)
-    if tot["diverged"] and not ctx.violations:
-        raise lib.Inconclusive("model drift: %d behaviours could not be followed by the code without a property failure: %s"
-                               % (tot["diverged"], tot["notes"][:3]))
-    cov = {
-        "evaluations": tot["evaluations"], "distinct_nontrivial": tot["distinct_nontrivial"],
-        "rule": "behaviours of MuxGen (API calls x delivery orders over gated connections; exhaustive BFS for 2 conns/1 stream/2 units "
-                "per direction with writes split over 2 frames, TLC -simulate for 3 conns/2 streams and for lazy readers) replayed on a "
-                "real Session pair in a synctest bubble; each with an encryption method / unit-size concretisation; non-trivial = a record "
-                "is delivered while an earlier one of the same direction is still in flight on another connection",
-        "samples": tot["samples"][:4], "traces_validated_against_impl": nb, "exhaustive": True,
-        "diverged": tot["diverged"],
-    }
-    return lib.finish(ctx, LEVEL, cov, ASSUME)
+        mcs += [("data_3c2s", C(nc=3, ns=2, units=2, maxwrite=2, extrainv="StaysUp"), 2400),
+                ("data_2c2s_lazy", C(nc=2, ns=2, units=2, maxwrite=2, feat='"swrite","lazy"', extrainv="StaysUp"), 2400)]
+    n = (lambda a, b: a if q else b)
+    gens = [("2c1s", C(nc=2, ns=1, units=2, maxwrite=2), 30, 0, None, 2, {"allconc": not q}),
+            ("3c2s", C(nc=3, ns=2, units=2, maxwrite=2), 60, 0, n(250, 4000), 3, {}),
+            ("2c2s_lazy", C(nc=2, ns=2, units=3, maxwrite=2, feat='"swrite","lazy"'), 60, 0, n(200, 3000), 2, {}),
+            ("addconn", C(nc=2, ns=1, units=2, maxwrite=1, late="2", feat='"swrite","gates"'), 30, 0, n(200, 2000), 2,
+             {"gates": True, "late": 1})]
+    return muxprop.run_property(ctx, LEVEL, ASSUME, KEYS, mcs, gens, RULE)
 
 
-def replay(ctx, path):
-    res = lib.run_go(ctx, "multiplex", "TestVerifMuxReplay", env={"VERIF_REPLAY": path})
-    print(open(res["_out_dir"] + "/go.out").read())
-    return 0
+replay = muxprop.replay_file
